@@ -541,7 +541,7 @@ func allPkgConfigs() []pkgConfig {
 func TestC12(t *testing.T) {
 	run := ev.Start("C12")
 	defer run.Finish(t)
-	run.Rule = "(i) .lox texts: every grammar file, example and documentation snippet of the repository, generated grammars and lexer specs (all features) and hostile constants, pushed through 1-4 text-level mutations (delete/duplicate/transpose/insert/replace tokens and lines, splice two specs, truncate, numeric extremes in @left(n), 200-3000-term lines, NUL / invalid UTF-8 / surrogate bytes), as 1-2 files, through the in-process front end (parse, analyse, LALR construction) under recover; " +
+	run.Rule = "(i) .lox texts: every grammar file, example and documentation snippet of the repository, generated grammars and lexer specs (all features) and hostile constants, pushed through 1-4 text-level mutations (delete/duplicate/transpose/insert/replace tokens and lines, splice two specs, truncate, numeric extremes in @left(n), 200-3000-term lines, NUL / invalid UTF-8 / surrogate bytes), as 1-2 files, through the in-process front end (parse, analyse, LALR construction, rendering of the --report text) under recover; " +
 		"(ii) 30 Go-package configurations (no Go file, syntax error, ill-typed, no Token, no / two / generic / pointer-embedded parser struct, only _test.go, only build-tag-excluded files, directory outside any module, stale foreign *.gen.go, missing / ambiguous / orphan / ill-shaped actions, two packages, overlapping rules in two .lox files, ...) and generated grammars with matching actions, and packages composed from alphabets of odd Go declarations (Token / parser struct / element type / Discard member / action signature / _onBounds shapes around a grammar using every sugar), through the real codegen.Generate with the real `go list`, 1 in 4 also through the lox binary; (iii) thorough tier: native go fuzzing of the front end. " +
 		"oracle: success => the three files exist, are non-empty and parse as Go; failure => at least one diagnostic line; a panic is a violation identified by its first frame inside the repository; a run over 30 s is re-run in a subprocess under a 120 s guard before it is called a hang. " +
 		"non-trivial = case that gets past the front-end lexer/parser, or a package configuration; distinct by (outcome class, first diagnostic with names and numbers blanked)"
@@ -585,6 +585,7 @@ func TestC12(t *testing.T) {
 	}
 	corp := corpus()
 	run.ClassN("corpus-texts", len(corp))
+	loxb.FrontReport = true // the --report text is rendered for every text that reaches table construction
 	// (i)
 	f := run.Check("texts", run.N(20000, 400000), 8, func(rt *rapid.T, fail ev.FailFunc) {
 		text := baseText(rt, corp)
